@@ -83,24 +83,42 @@ theorem wait_points_closed (c : Call) (w : World) (p p' : Pt) (w' : World) :
 
 /-- **terminate reached**: for every cause of ending - remote DISC, exchange() returning None, the
     terminate callback, KeyboardInterrupt, IOError (also with a dead device), the three security
-    errors and any other exception - the run loop of either role executes terminate(); and terminate()
-    shuts the service access points down even when the MAC deactivation raises. -/
-theorem terminate_reached (r : Role) (c : Cause) (deactivateRaises : Bool) :
-    (loopEnd r c).terminateCalled = true ∧ terminateShutsDown deactivateRaises = true :=
-  ⟨loop_terminates r c, rfl⟩
+    errors and any other exception - striking at every point of the run loop (during the DPS key
+    agreement, at the first collect/exchange before the link is ESTABLISHED, or later) the run loop of
+    either role executes terminate(); and terminate() shuts the service access points down even when
+    the MAC deactivation raises. -/
+theorem terminate_reached (r : Role) (pt : LoopPt) (c : Cause) (deactivateRaises : Bool) :
+    (loopEnd r pt c).terminateCalled = true ∧ terminateShutsDown deactivateRaises = true :=
+  ⟨loop_terminates r pt c, rfl⟩
+
+example : (loopEnd .target .first .otherException).terminateCalled = true := by decide
+
+/-- **a bind() racing terminate() never leaks a socket**: terminate() is the sequence "set the
+    terminated flag, shut down SAP 63, ..., SAP 0"; an application thread that binds a socket to any
+    address after any number `k` of these steps is either refused (ESHUTDOWN) or its socket is shut
+    down by the remaining steps. -/
+theorem late_bind_never_leaks (k a : Nat) (ha : a < 64) : lateBind termSteps k a ≠ .leaked :=
+  late_bind_safe k a ha
+
+example : lateBind termSteps 0 40 = .shutDown ∧ lateBind termSteps 30 40 = .refused := by decide
+
+/-- the order matters: with the flag set after the loop a socket bound to 63 after the first step leaks -/
+theorem late_bind_order_counterexample : lateBind termStepsFlagLast 1 63 = .leaked :=
+  late_bind_flag_last_leaks
 
 /-- connect() returns to its caller (or re-raises the unexpected exception itself) for every cause
-    except IOError and the security errors. Partial: see `connect_returns_counterexample` (F21). -/
-theorem connect_returns_partial (r : Role) (c : Cause)
+    except IOError and the security errors, at every point of the loop. Partial: see
+    `connect_returns_counterexample` (F21). -/
+theorem connect_returns_partial (r : Role) (pt : LoopPt) (c : Cause)
     (h : c ≠ .ioError ∧ c ≠ .keyAgreementError ∧ c ≠ .decryptionError ∧ c ≠ .encryptionError) :
-    connectEnd r c = .returns ∨ (c = .otherException ∧ connectEnd r c = .reraises) :=
-  connect_returns r c h
+    connectEnd r pt c = .returns ∨ (c = .otherException ∧ connectEnd r pt c = .reraises) :=
+  connect_returns r pt c h
 
-def ConnectAlwaysReturns : Prop := ∀ r c, connectEnd r c ≠ .raisesSystemExit
+def ConnectAlwaysReturns : Prop := ∀ r pt c, connectEnd r pt c ≠ .raisesSystemExit
 
 /-- F21: an IOError (or a security error) in the link loop leaves connect() by SystemExit -/
 theorem connect_returns_counterexample : ¬ ConnectAlwaysReturns := by
-  intro h; exact h .initiator .ioError (by decide)
+  intro h; exact h .initiator .established .ioError (by decide)
 
 /-- **service threads exit**: from every program point of the SNEP / handover listen and serve loops,
     on a socket of a terminated link, the thread function ends within 3 socket calls. -/
